@@ -33,7 +33,7 @@ ASSUMPTIONS = [
 ]
 LEVEL_SCOPE = ("Decides the listed clauses for every order type (piece) over real arithmetic, reporting only definite disagreements; floating-point "
                "rounding and the clauses listed as undecided are not decided.")
-FLOORS = {"K1": 20, "A1": 20, "A1b": 36, "A2": 19, "A3": 19, "D1": 20, "D2": 50, "M1": 26, "V1": 20}
+FLOORS = {"K1": 20, "A1": 20, "A1b": 36, "A2": 19, "A3": 19, "D1": 20, "D2": 50, "M1": 26, "V1": 20, "V8": 19}
 
 # positive-by-definition parameters (valid parameterisations): widths and standard deviations; slopes are non-zero
 POSITIVE = {"width", "standard_deviation", "standard_deviation_a", "standard_deviation_b"}
@@ -66,6 +66,10 @@ def run(check: Check) -> None:
 
         if not kernel_purity(check, fn, "K1", f"{name}.membership/pure", set(shape_params(c)) | {"height", "name"}):
             continue  # the remaining rules interpret the kernel as a function of x and the parameters
+        from .common import coerce_first
+
+        if not coerce_first(check, fn, "V8", f"{name}.membership/coerce-first"):
+            continue  # the operands are not the values the interpreters assume
         t = return_term(p, c, "membership")
         xname = fn.params[1].name
         # A1
